@@ -860,6 +860,45 @@ func scenarioEncode(seed uint64, n, rounds int) {
 	}
 }
 
+// --------------------------------------------------------------------- factory
+//
+// Worlds made by several module executions (graphs.MultiModules): the closure kept
+// in the last module's global, and the value it captures, are shared by N threads
+// that all call it with a mutating argument at the same moment.  The captured value
+// must be frozen (hook), every call must be rejected, nothing may change.
+
+func scenarioFactory(seed uint64, n, rounds int) {
+	for round := 0; round < rounds; round++ {
+		for _, f := range graphs.MultiModules() {
+			m := f()
+			o := Out{Kind: "round", Scenario: "factory", Seed: seed, N: n, Round: round, Src: strings.Join(m.Srcs, "\n"), Same: true}
+			if m.Err != "" {
+				o.Diff = "generator: " + m.Name + ": " + m.Err
+				hx.Emit(o)
+				continue
+			}
+			if fr, ok := starlark.VerifFrozen(m.Target); ok && !fr {
+				o.Accepted = append(o.Accepted, "factory "+m.Name+": the captured "+m.Target.Type()+" is reachable from a finished module's global but its frozen flag is not set")
+			}
+			before := m.Target.String()
+			accepted := make([]bool, n)
+			together(n, func(t int) { accepted[t] = m.Call(&starlark.Thread{Name: fmt.Sprint("conc", t)}) == nil })
+			o.Ops = n
+			for t := range accepted {
+				if accepted[t] {
+					o.Accepted = append(o.Accepted, fmt.Sprintf("factory %s: thread %d mutated the captured value through the shared closure", m.Name, t))
+					break
+				}
+			}
+			if after := m.Target.String(); after != before {
+				o.Changed = fmt.Sprintf("factory %s: captured value node was %s, is %s", m.Name, before, after)
+			}
+			hx.Emit(o)
+		}
+		hx.Flush()
+	}
+}
+
 // ------------------------------------------------------------------ footprints
 //
 // Sequential, deterministic: what does each operation of the repertoire WRITE?
@@ -1339,6 +1378,8 @@ func main() {
 			scenarioFootprints(*seed, *rounds)
 		case "encode":
 			scenarioEncode(*seed, *n, *rounds)
+		case "factory":
+			scenarioFactory(*seed, *n, *rounds)
 		}
 		hx.Flush()
 		return
@@ -1359,7 +1400,7 @@ func main() {
 		jobs = []job{{"values", 2, 6, 14, true, 0}, {"values", 8, 4, 12, false, 0}, {"values", 32, 2, 10, false, 0},
 			{"position", 2, 3, 0, false, 0}, {"position", 8, 3, 0, false, 0}, {"position", 32, 2, 0, false, 0},
 			{"proginit", 2, 2, 0, false, 0}, {"proginit", 8, 2, 0, false, 0}, {"proginit", 32, 2, 0, false, 0},
-			{"encode", 8, 2, 0, false, 0},
+			{"encode", 8, 2, 0, false, 0}, {"factory", 8, 1, 0, false, 0},
 			{"footprints", 1, 10, 0, false, 0}}
 	} else {
 		jobs = []job{{"values", 2, 1200, 16, true, 0}, {"values", 3, 480, 14, true, 0}, {"values", 8, 960, 14, false, 0}, {"values", 32, 360, 12, false, 0},
@@ -1367,6 +1408,7 @@ func main() {
 			{"position", 2, 720, 0, false, 0}, {"position", 8, 720, 0, false, 0}, {"position", 32, 300, 0, false, 0}, {"position", 8, 360, 0, false, 2},
 			{"proginit", 2, 480, 0, false, 0}, {"proginit", 8, 480, 0, false, 0}, {"proginit", 32, 180, 0, false, 0}, {"proginit", 8, 240, 0, false, 2},
 			{"encode", 2, 40, 0, false, 0}, {"encode", 8, 40, 0, false, 0}, {"encode", 32, 15, 0, false, 0}, {"encode", 8, 20, 0, false, 2},
+			{"factory", 2, 10, 0, false, 0}, {"factory", 8, 10, 0, false, 0}, {"factory", 32, 5, 0, false, 0},
 			{"footprints", 1, 1000, 0, false, 0}}
 	}
 	w := os.Stdout
